@@ -475,8 +475,8 @@ use compio_runtime::{
 };
 
 const TOL: Duration = Duration::from_millis(200);
-/// lateness above which a scenario is re-run (its tokens need margins of 10 ms and more)
-const DISTURBED: Duration = Duration::from_millis(5);
+/// lateness above which a scenario is re-run (the `elapsed` verdicts keep a margin of 150 ms and more)
+const DISTURBED: Duration = Duration::from_millis(100);
 
 /// Stall canary: a thread that sleeps 500 us at a time and records every window in which it was
 /// itself held up by more than 2 ms (CPU quota throttling, an overloaded machine). A lateness that
@@ -694,8 +694,9 @@ async fn run_task(sh: Rc<Shared>, id: usize, spec: String) {
                     sh.sleep(id, &format!("{spec} work {j}"), v + work).await;
                 }
             }
-            // tick indices are predictable only with a margin against real-time jitter (see the generator)
-            if period >= Duration::from_millis(20) { format!("ticks:{}", ks.join("/")) } else { format!("ticks#{}", ks.len()) }
+            // which multiples of the period the ticks are depends on real-time jitter: the monitors
+            // above judge them; the token is the number of ticks
+            format!("ticks#{}", ks.len())
         }
         _ => "bad-spec".to_string(),
     };
@@ -865,7 +866,7 @@ fn run_rt(drv: &str, lp: &str, tasks: &str) -> RtOut {
     let is_lateness = |sig: &str| sig == "C09:late-fire" || sig == "C09:never-fires";
     let mut late_attempts = 0;
     let mut attempts = 0;
-    for attempt in 0..12 {
+    for attempt in 0..8 {
         if attempt > 2 {
             std::thread::sleep(Duration::from_millis(20 * attempt));
         }
@@ -885,7 +886,7 @@ fn run_rt(drv: &str, lp: &str, tasks: &str) -> RtOut {
             }
             break;
         }
-        if attempt == 11 {
+        if attempt == 7 {
             last.tags.push("rt:gave-up-still-disturbed".into());
         }
     }
@@ -1097,7 +1098,7 @@ fn gen_rt_line(rng: &mut Rng) -> String {
     let lp = *rng.pick(&["manual", "block"]);
     let n = rng.range(1, 8);
     let mut tasks = vec![];
-    // deadlines on a 1..20 ms scale; `ok`/`elapsed` verdicts that depend on real time keep a 40 ms margin
+    // deadlines on a 1..20 ms scale; `elapsed` verdicts, which depend on real time, keep a 150 ms margin
     let near = |rng: &mut Rng| -> i64 {
         match rng.below(6) {
             0 => -(rng.range(1, 30) as i64),
@@ -1119,7 +1120,8 @@ fn gen_rt_line(rng: &mut Rng) -> String {
             6 => {
                 // inner later than the limit by a margin: Elapsed
                 let l = near(rng);
-                let a = l.max(0) + rng.range(40, 60) as i64;
+                // (the inner future is dropped at the limit: the margin costs no time)
+                let a = l.max(0) + rng.range(150, 400) as i64;
                 format!("t,{a},{l}")
             }
             7 => format!("t,n,{}", near(rng)),
@@ -1150,8 +1152,9 @@ fn gen_rt_line(rng: &mut Rng) -> String {
 fn gen_ivx_line(rng: &mut Rng) -> String {
     let drv = *rng.pick(&["uring", "poll"]);
     const Y: u64 = 31_536_000;
-    let (s, p) = match rng.below(6) {
-        0 => (rng.below(100), rng.range(1, 1000)),
+    let (s, p) = match rng.below(9) {
+        // ordinary values, in seconds: start before / within / many periods ago (missed ticks)
+        0 | 6 | 7 | 8 => (rng.below(3000), rng.range(10, 1000)),
         1 => (rng.below(100_000), 0),
         2 => (rng.below(100), (1u64 << 63) + rng.below(1u64 << 62)), // Instant overflow
         3 => (rng.below(100), (1u64 << 63) - rng.range(400, 4000) * Y),
